@@ -1,6 +1,7 @@
 import Juniper.Proofs.StreamReduce
 import Juniper.Proofs.StreamLast
 import Juniper.Proofs.StreamRuns
+import Juniper.Proofs.StreamFaults
 /-!
 # C08 — stream failures surface intact and never lose or duplicate items (property theorems,
 caller's-goroutine combinators)
@@ -14,7 +15,8 @@ are the C08 readings.
 namespace Juniper.Props.C08
 open Juniper.Model Juniper.Model.Stream Juniper.Spec Juniper.Gen.Comb
 open Juniper.Proofs Juniper.Proofs.StreamDen
-universe u v w
+open Juniper.Proofs.IterDen (annot annot_fst)
+universe u v w x
 variable {σ : Type u} {τ : Type w} {α β : Type v}
 
 /-- **The source.** A script = items, transient failures, possibly a fatal failure (sticky). It denotes
@@ -168,5 +170,311 @@ example : scriptTerm false 0 [Ev.item (1 : Nat), .transient 5, .item 2] = .fail 
 theorem reducer_ctx_costs_nothing {γ : Type v} (m : SM σ α) (f : γ → α → Except Err γ) (fuel : Nat) (acc : γ) (s : σ)
     (h : m.step s false = (.err .ctx, s)) : reduceLoop m f false (fuel + 1) acc s = (.error .ctx, s) :=
   reduceLoop_ctx m f fuel acc s h
+
+/-! ## every combinator named in the property: its own `*_transient_transparent`, `*_fatal`,
+`*_callback_error` (most are corollaries of its `s_*_denotes` theorem, which holds for every termination
+of the inner stream and any soft failures in between) -/
+
+/-- the general reading used below: whatever a combinator is shown to denote on a script, the consumer
+sees — with the failed calls that cost nothing erased, under any contexts — what it denotes on the
+script with its transient failures erased. -/
+theorem erased_run_conforms {ι : Type x} {σ' : Type w} {m' : SM σ' β} {cost' : σ' → Nat} {st : σ'} (sc : List (Ev ι))
+    (X : List (ι × Nat) → Term → List (β × Nat) × Term)
+    (h : SDen Err.soft m' cost' st (X (scriptItems true 0 sc) (scriptTerm true 0 sc)).1
+      (X (scriptItems true 0 sc) (scriptTerm true 0 sc)).2) :
+    ∃ F, ∀ fuel, F ≤ fuel → ∀ cs, Conforms (hard Err.soft (snexts m' fuel cs st))
+      ((X (scriptItems true 0 (eraseT sc)) (scriptTerm true 0 (eraseT sc))).1.map Prod.fst)
+      (X (scriptItems true 0 (eraseT sc)) (scriptTerm true 0 (eraseT sc))).2 := by
+  rw [scriptItems_eraseT true 0 sc, scriptTerm_eraseT true 0 sc]
+  exact sden_conforms rfl h
+
+/-! ### `*_transient_transparent` -/
+
+theorem filter_transient_transparent (keep : α → Except Err Bool) (hf : ∀ a e, keep a = .error e → Err.soft e = false)
+    (sc : List (Ev α)) :
+    ∃ F, ∀ fuel, F ≤ fuel → ∀ cs, Conforms (hard Err.soft (snexts (filter keep src) fuel cs ⟨Src.of sc⟩))
+      ((filterS keep (scriptItems true 0 (eraseT sc)) (scriptTerm true 0 (eraseT sc))).1.map Prod.fst)
+      (filterS keep (scriptItems true 0 (eraseT sc)) (scriptTerm true 0 (eraseT sc))).2 :=
+  erased_run_conforms sc (filterS keep) (filter_sden keep hf (source_fault_denotes sc))
+
+theorem map_transient_transparent (f : α → Except Err β) (hf : ∀ a e, f a = .error e → Err.soft e = false)
+    (sc : List (Ev α)) :
+    ∃ F, ∀ fuel, F ≤ fuel → ∀ cs, Conforms (hard Err.soft (snexts (map f src) fuel cs ⟨Src.of sc⟩))
+      ((mapS f (scriptItems true 0 (eraseT sc)) (scriptTerm true 0 (eraseT sc))).1.map Prod.fst)
+      (mapS f (scriptItems true 0 (eraseT sc)) (scriptTerm true 0 (eraseT sc))).2 :=
+  erased_run_conforms sc (mapS f) (map_sden f hf (source_fault_denotes sc))
+
+/-- `CompactFunc` keeps `prev` / `first` across failed calls. -/
+theorem compact_transient_transparent (eq : α → α → Bool) (sc : List (Ev α)) :
+    ∃ F, ∀ fuel, F ≤ fuel → ∀ cs, Conforms (hard Err.soft (snexts (compact eq src) fuel cs ⟨Src.of sc, true, none⟩))
+      ((Seq.compactGo (fun p q => eq p.1 q.1) none (scriptItems true 0 (eraseT sc))).map Prod.fst)
+      (scriptTerm true 0 (eraseT sc)) :=
+  erased_run_conforms sc (fun L t => (Seq.compactGo (fun p q => eq p.1 q.1) none L, t))
+    (compact_sden eq (source_fault_denotes sc) none)
+
+/-- `First` does not count a failed call against its budget. -/
+theorem first_transient_transparent (n : Int) (sc : List (Ev α)) :
+    ∃ F, ∀ fuel, F ≤ fuel → ∀ cs, Conforms (hard Err.soft (snexts (first src) fuel cs ⟨Src.of sc, n⟩))
+      (((scriptItems true 0 (eraseT sc)).take n.toNat).map Prod.fst)
+      (firstTermS 0 n.toNat (scriptItems true 0 (eraseT sc)) (scriptTerm true 0 (eraseT sc))) :=
+  erased_run_conforms sc (fun L t => (L.take n.toNat, firstTermS 0 n.toNat L t))
+    (first_sden (source_fault_denotes sc) n)
+
+/-- `While` keeps the held item across a failed callback / failed call. -/
+theorem while_transient_transparent (f : α → Except Err Bool) (hf : ∀ a e, f a = .error e → Err.soft e = false)
+    (sc : List (Ev α)) :
+    ∃ F, ∀ fuel, F ≤ fuel → ∀ cs, Conforms (hard Err.soft (snexts (while_ f src) fuel cs ⟨Src.of sc, none, false⟩))
+      ((whileS f (scriptItems true 0 (eraseT sc)) (scriptTerm true 0 (eraseT sc))).1.map Prod.fst)
+      (whileS f (scriptItems true 0 (eraseT sc)) (scriptTerm true 0 (eraseT sc))).2 :=
+  erased_run_conforms sc (whileS f) (while_sden f hf (source_fault_denotes sc))
+
+/-- `WithPeek`: a failed `Next` leaves the peek buffer alone. -/
+theorem peekable_transient_transparent (sc : List (Ev α)) :
+    ∃ F, ∀ fuel, F ≤ fuel → ∀ cs, Conforms (hard Err.soft (snexts (withPeek src) fuel cs ⟨Src.of sc, none⟩))
+      ((scriptItems true 0 (eraseT sc)).map Prod.fst) (scriptTerm true 0 (eraseT sc)) :=
+  erased_run_conforms sc (fun L t => (L, t)) (peek_sden (source_fault_denotes sc))
+
+/-- `FlattenSlices` keeps its buffer across failed calls. -/
+theorem flattenSlices_transient_transparent (sc : List (Ev (List α))) :
+    ∃ F, ∀ fuel, F ≤ fuel → ∀ cs, Conforms (hard Err.soft (snexts (flattenSlices src) fuel cs ⟨Src.of sc, []⟩))
+      (((scriptItems true 0 (eraseT sc)).flatMap fun p => p.1.map fun a => (a, p.2)).map Prod.fst)
+      (scriptTerm true 0 (eraseT sc)) :=
+  erased_run_conforms sc (fun L t => (L.flatMap fun p => p.1.map fun a => (a, p.2), t))
+    (flattenSlices_sden (source_fault_denotes sc))
+
+/-- `Flatten` (faulty outer stream, inner streams denoting `D`): a failed call of the outer stream or
+of the current inner stream changes nothing; the current inner stream is kept. -/
+theorem flatten_transient_transparent {mi : SM τ α} (D : τ → List α × Term) (sc : List (Ev τ))
+    (hD : ∀ p ∈ scriptItems true 0 sc, ∃ (ci : τ → Nat) (Li : List (α × Nat)),
+      SDen Err.soft mi ci p.1 Li (D p.1).2 ∧ Li.map Prod.fst = (D p.1).1) :
+    ∃ F, ∀ fuel, F ≤ fuel → ∀ cs, Conforms (hard Err.soft (snexts (flatten src mi) fuel cs ⟨Src.of sc, none, []⟩))
+      ((flattenS D (scriptItems true 0 (eraseT sc)) (scriptTerm true 0 (eraseT sc))).1.map Prod.fst)
+      (flattenS D (scriptItems true 0 (eraseT sc)) (scriptTerm true 0 (eraseT sc))).2 :=
+  erased_run_conforms sc (flattenS D) (flatten_sden D (source_fault_denotes sc) hD [])
+
+/-- non-vacuity: a faulty outer script of faulty inner scripted sources -/
+example : (flattenS srcD (scriptItems true 0
+      [Ev.item (Src.of [Ev.item 1, .transient 3, .item 2]), .transient 7, .item (Src.of [Ev.item 3])]) (.end_ 2)).1.map Prod.fst
+    = [1, 2, 3] := by decide
+
+/-- `Join` over faulty scripted sources: transient failures of any argument cost nothing. -/
+theorem join_transient_transparent (scs : List (List (Ev α))) :
+    ∃ F, ∀ fuel, F ≤ fuel → ∀ cs, Conforms (hard Err.soft (snexts (join src) fuel cs ⟨scs.map Src.of, []⟩))
+      ((joinS srcD ((scs.map eraseT).map Src.of)).1.map Prod.fst) (joinS srcD ((scs.map eraseT).map Src.of)).2 := by
+  have e : joinS srcD ((scs.map eraseT).map Src.of) = joinS srcD (scs.map Src.of) := by
+    induction scs with
+    | nil => rfl
+    | cons sc scs ih =>
+      have h1 : srcD (Src.of (eraseT sc)) = srcD (Src.of sc) := by
+        simp [srcD, Src.of, scriptItems_eraseT, scriptTerm_eraseT]
+      simp only [List.map_cons, joinS, h1, ih]
+  rw [e]
+  exact sden_conforms rfl (join_sden (soft := Err.soft) srcD (scs.map Src.of) (fun s hs => by
+    obtain ⟨sc, _, rfl⟩ := List.mem_map.mp hs
+    exact srcD_hyp_script sc) [])
+
+/-- `Runs` (documented protocol). -/
+theorem runs_transient_transparent (same : α → α → Bool) (hrefl : ∀ a, same a a = true) (take : Option Nat)
+    (closeInner : Bool) (sc : List (Ev α)) :
+    ∃ F, ∀ fuel, F ≤ fuel → ∀ cs,
+      Conforms (hard Err.soft (snexts (runsProto same take closeInner src) fuel cs ⟨⟨⟨Src.of sc, none⟩, 0, none⟩, none⟩))
+        ((runsStartS same take (scriptItems true 0 (eraseT sc)) (scriptTerm true 0 (eraseT sc))).map Prod.fst)
+        (scriptTerm true 0 (eraseT sc)) :=
+  erased_run_conforms sc (fun L t => (runsStartS same take L t, t))
+    ((runs_sden same hrefl take closeInner (source_fault_denotes sc)).2.2 0)
+
+/-! ### `*_fatal`: the source delivers `l` and then fails for good with `E` -/
+
+/-- the failing source itself -/
+theorem fatal_source_denotes (l : List α) (E : Nat) (rest : List (Ev α)) :
+    SDen Err.soft src (fun s : Src α => s.pulled) (Src.of (fatalAfter l E rest)) (annot 0 l) (.fail (.fatal E)) :=
+  fatal_src_sden l E rest
+
+/-- `Filter` (callback not failing): the kept ones of the `p` items, then `E` itself. -/
+theorem filter_fatal (keep : α → Bool) (l : List α) (E : Nat) (rest : List (Ev α)) :
+    SDen Err.soft (filter (fun a => .ok (keep a)) src) (fun st => st.inner.pulled) ⟨Src.of (fatalAfter l E rest)⟩
+      ((annot 0 l).filter fun p => keep p.1) (.fail (.fatal E)) := by
+  have h := filter_sden (soft := Err.soft) (fun a => Except.ok (keep a)) (by intro a e h; cases h) (fatal_src_sden l E rest)
+  rwa [filterS_ok] at h
+
+/-- `CompactFunc`. -/
+theorem compact_fatal (eq : α → α → Bool) (l : List α) (E : Nat) (rest : List (Ev α)) :
+    SDen Err.soft (compact eq src) (fun st => st.inner.pulled) ⟨Src.of (fatalAfter l E rest), true, none⟩
+      (Seq.compactGo (fun p q => eq p.1 q.1) none (annot 0 l)) (.fail (.fatal E)) :=
+  compact_sden eq (fatal_src_sden l E rest) none
+
+/-- `First n` with `n` larger than the number of items before the failure: all of them, then `E` itself … -/
+theorem first_fatal (n : Nat) (l : List α) (E : Nat) (rest : List (Ev α)) (hn : l.length < n) :
+    SDen Err.soft (first src) (fun st => st.inner.pulled) ⟨Src.of (fatalAfter l E rest), (n : Int)⟩
+      (annot 0 l) (.fail (.fatal E)) := by
+  have h := first_sden (soft := Err.soft) (fatal_src_sden l E rest) (n : Int)
+  have hl : (annot 0 l).length = l.length := by rw [← List.length_map (f := Prod.fst), annot_fst]
+  rw [firstTermS_short _ _ _ _ (by simpa [hl] using hn), List.take_of_length_le (by simp [hl]; omega)] at h
+  exact h
+
+/-- … and with `n ≤ p` it ends normally after `n` items without ever reaching the failure. -/
+theorem first_fatal_not_reached (n : Nat) (l : List α) (E : Nat) (rest : List (Ev α)) (hn : n ≤ l.length) :
+    ∃ e, SDen Err.soft (first src) (fun st => st.inner.pulled) ⟨Src.of (fatalAfter l E rest), (n : Int)⟩
+      ((annot 0 l).take n) (.end_ e) := by
+  have h := first_sden (soft := Err.soft) (fatal_src_sden l E rest) (n : Int)
+  have hl : (annot 0 l).length = l.length := by rw [← List.length_map (f := Prod.fst), annot_fst]
+  obtain ⟨e, he⟩ := firstTermS_enough ((fun s : Src α => s.pulled) (Src.of (fatalAfter l E rest))) n (annot 0 l)
+    (.fail (.fatal E)) (by omega)
+  simp only [Int.toNat_natCast] at h
+  rw [he] at h
+  exact ⟨e, h⟩
+
+/-- `While` (all items before the failure pass): all of them, then `E` itself. -/
+theorem while_fatal (f : α → Bool) (l : List α) (E : Nat) (rest : List (Ev α)) (hall : ∀ a ∈ l, f a = true) :
+    SDen Err.soft (while_ (fun a => .ok (f a)) src) (fun st => st.inner.pulled) ⟨Src.of (fatalAfter l E rest), none, false⟩
+      (annot 0 l) (.fail (.fatal E)) := by
+  have h := while_sden (soft := Err.soft) (fun a => Except.ok (f a)) (by intro a e h; cases h) (fatal_src_sden l E rest)
+  rwa [whileS_all _ _ _ (by
+    intro p hp
+    have := List.mem_map_of_mem (f := Prod.fst) hp
+    rw [annot_fst] at this
+    simp [hall p.1 this])] at h
+
+/-- `WithPeek`. -/
+theorem peekable_fatal (l : List α) (E : Nat) (rest : List (Ev α)) :
+    SDen Err.soft (withPeek src) (fun st => st.inner.pulled) ⟨Src.of (fatalAfter l E rest), none⟩
+      (annot 0 l) (.fail (.fatal E)) := peek_sden (fatal_src_sden l E rest)
+
+/-- `FlattenSlices`: every item of every slice received before the failure — the buffer is drained
+before the source is asked again — then `E` itself. -/
+theorem flattenSlices_fatal (ls : List (List α)) (E : Nat) (rest : List (Ev (List α))) :
+    SDen Err.soft (flattenSlices src) (fun st => st.inner.pulled) ⟨Src.of (fatalAfter ls E rest), []⟩
+      ((annot 0 ls).flatMap fun p => p.1.map fun a => (a, p.2)) (.fail (.fatal E)) :=
+  flattenSlices_sden (fatal_src_sden ls E rest)
+
+/-- `Flatten`, the outer stream failing after it has handed out inner streams that all end: all their
+items, then `E` itself. -/
+theorem flatten_fatal {mi : SM τ α} (D : τ → List α × Term) (xs : List τ) (E : Nat) (rest : List (Ev τ))
+    (hD : ∀ x ∈ xs, ∃ (ci : τ → Nat) (Li : List (α × Nat)), SDen Err.soft mi ci x Li (D x).2 ∧ Li.map Prod.fst = (D x).1)
+    (hend : ∀ x ∈ xs, ∃ e, (D x).2 = .end_ e) :
+    SDen Err.soft (flatten src mi) (fun st => st.outer.pulled) ⟨Src.of (fatalAfter xs E rest), none, []⟩
+      ((annot 0 xs).flatMap fun p => (D p.1).1.map fun a => (a, p.2)) (.fail (.fatal E)) := by
+  have hm : ∀ p ∈ annot 0 xs, p.1 ∈ xs := fun p hp => by
+    have := List.mem_map_of_mem (f := Prod.fst) hp
+    rwa [annot_fst] at this
+  have h := flatten_sden (soft := Err.soft) D (fatal_src_sden xs E rest) (fun p hp => hD p.1 (hm p hp)) []
+  rwa [flattenS_allEnd D _ _ (fun p hp => hend p.1 (hm p hp))] at h
+
+/-- `Flatten`, an inner stream failing with `E`: the items of the inner streams before it, its own
+items before the failure, then `E` itself — the later inner streams are never asked for. -/
+theorem flatten_inner_fatal (D : τ → List α × Term) (pre post : List (τ × Nat)) (x : τ) (k : Nat) (t : Term) (E : Err)
+    (hpre : AllEnd D pre) (hx : (D x).2 = .fail E) :
+    flattenS D (pre ++ (x, k) :: post) t =
+      ((pre.flatMap fun p => (D p.1).1.map fun a => (a, p.2)) ++ (D x).1.map fun a => (a, k), .fail E) :=
+  flattenS_inner_fail D pre post x k t E hpre hx
+
+/-- `Join`: the arguments `pre` end normally, the next one fails for good with `E` after the items `l`:
+the items of `pre`, then `l`, then `E` itself — the later arguments are never asked for. -/
+theorem join_fatal (pre : List (List α)) (l : List α) (E : Nat) (rest : List (Ev α)) (post : List (List (Ev α))) :
+    SDen Err.soft (join src) (fun _ => 0)
+      ⟨pre.map ofList ++ Src.of (fatalAfter l E rest) :: post.map Src.of, []⟩
+      ((pre.flatten ++ l).map fun a => (a, 0)) (.fail (.fatal E)) := by
+  have e : ((pre.map ofList).flatMap fun s => (srcD s).1.map fun a => (a, 0)) = pre.flatten.map fun a => (a, 0) := by
+    induction pre with
+    | nil => rfl
+    | cons l0 pre ih => simp [srcD_ofList, ih]
+  have h := join_sden (soft := Err.soft) srcD (pre.map ofList ++ Src.of (fatalAfter l E rest) :: post.map Src.of)
+    (fun s hs => by
+      simp only [List.mem_append, List.mem_map, List.mem_cons] at hs
+      rcases hs with ⟨l', _, rfl⟩ | rfl | ⟨sc, _, rfl⟩
+      · exact srcD_hyp_script _
+      · exact srcD_hyp_script _
+      · exact srcD_hyp_script _) []
+  rw [joinS_fail srcD (pre.map ofList) (post.map Src.of) (Src.of (fatalAfter l E rest)) (.fatal E)
+    (fun s hs => by
+      obtain ⟨l', _, rfl⟩ := List.mem_map.mp hs
+      exact ⟨_, by rw [srcD_ofList]⟩)
+    (by rw [srcD_fatalAfter])] at h
+  rw [e, srcD_fatalAfter, ← List.map_append] at h
+  exact h
+
+example : fatalAfter [1, 2] 9 [Ev.item 3] = [Ev.item 1, .item 2, .fatal 9, .item 3] := rfl
+
+/-! ### `*_callback_error`: a callback fails with `E` on some item -/
+
+/-- `Filter`: the kept ones among the items before it, then `E` itself. -/
+theorem filter_callback_error (keep : α → Except Err Bool) (a : α) (c : Nat) (E : Err) (hfa : keep a = .error E)
+    (pre : List (α × Nat)) (hpre : ∀ p ∈ pre, ∃ b, keep p.1 = .ok b) (post : List (α × Nat)) (t : Term) :
+    (filterS keep (pre ++ (a, c) :: post) t).2 = .fail E ∧
+    (filterS keep (pre ++ (a, c) :: post) t).1 = pre.filter fun p => keptBy keep p.1 :=
+  filterS_callback_error keep a c E hfa pre hpre post t
+
+/-- `While`: the items before it (all passing), then `E` itself — not the end. -/
+theorem while_callback_error (f : α → Except Err Bool) (a : α) (c : Nat) (E : Err) (hfa : f a = .error E)
+    (pre : List (α × Nat)) (hpre : ∀ p ∈ pre, f p.1 = .ok true) (post : List (α × Nat)) (t : Term) :
+    whileS f (pre ++ (a, c) :: post) t = (pre, .fail E) := whileS_callback_error f a c E hfa pre hpre post t
+
+/-- `Reduce`: the callback succeeds on `pre` (reaching `acc'`) and fails with `E` on the next item: the
+reducer returns `E` itself, whatever the stream would have done later. -/
+theorem reduce_callback_error {γ : Type v} {m : SM σ α} {cost : σ → Nat} {s : σ} {L : List (α × Nat)} {t : Term}
+    (f : γ → α → Except Err γ) (h : SDen strict m cost s L t) (E : Err) (pre : List α) (init acc' : γ) (a : α)
+    (post : List α) (hL : L.map Prod.fst = pre ++ a :: post) (hpre : foldRes f init pre (.end_ 0) = .ok acc')
+    (hfa : f acc' a = .error E) :
+    ∃ F, ∀ fuel, F ≤ fuel → (reduce m f true fuel init s).1 = .error E := by
+  obtain ⟨F, hF⟩ := reduce_sden f h
+  exact ⟨F, fun fuel hf => by rw [hF fuel hf init, hL, foldRes_callback_error f E t pre init acc' a post hpre hfa]⟩
+
+example : (filterS (fun n : Nat => if n = 3 then .error (.cb 7) else .ok (n % 2 == 0)) [(2, 1), (1, 2), (3, 3), (4, 4)] (.end_ 4))
+    = ([(2, 1)], .fail (.cb 7)) := by decide
+
+/-! ## pipelines of any depth under sequences of several faults -/
+
+/-- **`pipeline_faults`**: any pipeline (`SPipe`: any depth, callbacks may fail) over any fault script —
+any number of transient failures at any positions, possibly a fatal one — under any per-call contexts
+(each expired context is one more fault): with the failed calls that cost nothing erased, the consumer
+sees exactly what the pipeline yields on the script without its transient failures; nothing lost,
+nothing duplicated, and the termination is the pipeline's own image of the script's. -/
+theorem pipeline_faults {α : Type} (p : SPipe α) (sc : List (Ev α)) :
+    ∃ F, ∀ fuel, F ≤ fuel → ∀ cs,
+      Conforms (hard Err.soft (snexts (p.machine src).m fuel cs ((p.machine src).wrap (Src.of sc))))
+        ((p.spec 0 (scriptItems true 0 (eraseT sc)) (scriptTerm true 0 (eraseT sc))).1.map Prod.fst)
+        (p.spec 0 (scriptItems true 0 (eraseT sc)) (scriptTerm true 0 (eraseT sc))).2 :=
+  erased_run_conforms sc (p.spec 0) (spipe_sden (c := fun s : Src α => s.pulled) p (source_fault_denotes sc))
+
+/-- **two faults**: two transient failures anywhere in the input: the pipeline's answers (failed calls
+erased) are those of the fault-free input. -/
+theorem pipeline_two_faults {α : Type} (p : SPipe α) (l1 l2 l3 : List α) (n1 n2 : Nat) :
+    ∃ F, ∀ fuel, F ≤ fuel → ∀ cs,
+      Conforms (hard Err.soft (snexts (p.machine src).m fuel cs ((p.machine src).wrap
+          (Src.of (l1.map Ev.item ++ .transient n1 :: (l2.map Ev.item ++ .transient n2 :: l3.map Ev.item))))))
+        ((p.spec 0 (annot 0 (l1 ++ l2 ++ l3)) (.end_ (l1 ++ l2 ++ l3).length)).1.map Prod.fst)
+        (p.spec 0 (annot 0 (l1 ++ l2 ++ l3)) (.end_ (l1 ++ l2 ++ l3).length)).2 := by
+  have h := spipe_sden (c := fun s : Src α => s.pulled) p
+    (source_fault_denotes (l1.map Ev.item ++ .transient n1 :: (l2.map Ev.item ++ .transient n2 :: l3.map Ev.item)))
+  rw [(script_two_transients l1 l2 l3 n1 n2).1, (script_two_transients l1 l2 l3 n1 n2).2,
+    scriptItems_map_item, scriptTerm_map_item, Nat.zero_add] at h
+  exact sden_conforms rfl h
+
+/-- **a transient failure and later a fatal one**: the pipeline's outputs for the items before the
+fatal failure, then its image of that failure (`pipeline_fatal_surfaces`). -/
+theorem pipeline_transient_then_fatal {α : Type} (p : SPipe α) (l1 l2 : List α) (n E : Nat) (rest : List (Ev α)) :
+    ∃ F, ∀ fuel, F ≤ fuel → ∀ cs,
+      Conforms (hard Err.soft (snexts (p.machine src).m fuel cs ((p.machine src).wrap
+          (Src.of (l1.map Ev.item ++ .transient n :: (l2.map Ev.item ++ .fatal E :: rest))))))
+        ((p.spec 0 (annot 0 (l1 ++ l2)) (.fail (.fatal E))).1.map Prod.fst)
+        (p.spec 0 (annot 0 (l1 ++ l2)) (.fail (.fatal E))).2 := by
+  have h := spipe_sden (c := fun s : Src α => s.pulled) p
+    (source_fault_denotes (l1.map Ev.item ++ .transient n :: (l2.map Ev.item ++ .fatal E :: rest)))
+  rw [(script_transient_then_fatal l1 l2 n E rest).1, (script_transient_then_fatal l1 l2 n E rest).2,
+    scriptItems_map_item] at h
+  exact sden_conforms rfl h
+
+/-- **`E` itself**: a pipeline over a stream that fails with `E` terminates with `E` — or with its own
+normal end when a `First`/`While` stage had already ended, or with a callback's own failure that came
+first; never with another error and never silently. -/
+theorem pipeline_fatal_surfaces {α : Type} (p : SPipe α) (c0 : Nat) (L : List (α × Nat)) (E : Err) :
+    TermOk E (p.spec c0 L (.fail E)).2 := spipe_termOk p c0 L E
+
+/-- non-vacuity: a depth-4 pipeline with a type-changing stage, two transient faults and a fatal one -/
+example :
+    let p : SPipe Nat := .first 3 (.chunkFlat 2 (.filter (fun n => .ok (n % 2 == 1)) (.map (fun n => .ok (n + 1)) .src)))
+    let sc : List (Ev Nat) := [.item 0, .transient 1, .item 1, .item 2, .transient 2, .item 4, .item 6, .fatal 9, .item 8]
+    (p.spec 0 (scriptItems true 0 (eraseT sc)) (scriptTerm true 0 (eraseT sc))).1.map Prod.fst = [1, 3, 5] := by
+  decide
 
 end Juniper.Props.C08
